@@ -15,6 +15,13 @@ except for two points the spec leaves open (both are reported through ``Verdict.
 * ``ttl_edge`` — §10 "entries expire after ``skew`` seconds": a nonce presented exactly
   ``skew`` seconds (cache clock) after it was remembered may be either still remembered or
   already expired → both ``replayed`` and ``ok`` are allowed.
+* the same verdict is used for the *width* of "the window" in step 9 when the caller does not
+  choose the cache TTL itself (the gate builds its own cache): §10 says "entries expire after
+  ``skew`` seconds — a nonce older than the window can no longer verify anyway", but a proof is
+  admissible for the two-sided window (``2·skew`` seconds, +1 for integer clocks), so both a
+  literal (``skew``) and an intent-following (up to ``2·skew+1``) retention are accepted: a nonce
+  re-presented ``skew … 2·skew+1`` cache-seconds after it was remembered may be ``replayed`` or
+  ``ok``; earlier it must be ``replayed``, later it must be accepted.
 """
 
 from __future__ import annotations
@@ -110,8 +117,9 @@ class NonceModel:
     Capacity overflow is outside this model (checks keep capacity above the history length).
     """
 
-    def __init__(self, ttl: int) -> None:
-        self.ttl = ttl
+    def __init__(self, ttl: int, ttl_max: int | None = None) -> None:
+        self.ttl = ttl  # remembered for certain while age < ttl
+        self.ttl_max = ttl if ttl_max is None else ttl_max  # forgotten for certain once age > ttl_max
         self.seen: dict[str, int] = {}  # nonce -> cache-clock time it was remembered
 
     def state(self, nonce: str, t: int) -> str:
@@ -122,7 +130,7 @@ class NonceModel:
         age = t - t0
         if age < self.ttl:
             return "seen"
-        if age == self.ttl:
+        if age <= self.ttl_max:
             return "edge"
         return "fresh"
 
